@@ -189,8 +189,11 @@ func vfCheckFidelity(c *vfCtx, cfg vfCfg, srcTree vfTree, tops []string, dstBefo
 
 // vfRunTransfer runs one transfer to completion on both sides and classifies both outcomes.
 // finished=false means a side did not return within the bound (already recorded as slow).
-func vfRunTransfer(c *vfCtx, cfg vfCfg, paths []string, dst string, bound time.Duration) (s *vfSession, so, co vfOutcome, finished bool) {
+func vfRunTransfer(c *vfCtx, cfg vfCfg, paths []string, dst string, bound time.Duration, opts ...func(*vfSession)) (s *vfSession, so, co vfOutcome, finished bool) {
 	s = vfNewSession(c, cfg)
+	for _, o := range opts {
+		o(s)
+	}
 	t0 := time.Now()
 	s.Start(paths, dst)
 	okS := s.WaitServer(bound)
